@@ -262,13 +262,15 @@ Proof.
   - (* TInt *)
     destruct v; try discriminate Ht. cbn [has_type] in Ht. apply andb_true_iff in Ht. destruct Ht as [Hww Hrg].
     apply Z.eqb_eq in Hww. subst w0. cbn [roundtrippable] in Hr.
-    cbn [ser]. destruct (w =? 128) eqn:E; [lia|]. cbn [de int_of].
-    destruct (64 <? w) eqn:E2; [lia|]. rewrite Hrg. reflexivity.
+    cbn [ser]. destruct (w =? 128) eqn:E.
+    + apply Z.eqb_eq in E. subst w. cbn [de int_of128]. change (128 =? 128) with true. cbv iota. rewrite Hrg. reflexivity.
+    + cbn [de int_of]. rewrite E. destruct (64 <? w) eqn:E2; [lia|]. rewrite Hrg. reflexivity.
   - (* TUInt *)
     destruct v; try discriminate Ht. cbn [has_type] in Ht. apply andb_true_iff in Ht. destruct Ht as [Hww Hrg].
     apply Z.eqb_eq in Hww. subst w0. cbn [roundtrippable] in Hr.
-    cbn [ser]. destruct (w =? 128) eqn:E; [lia|]. cbn [de int_of].
-    destruct (64 <? w) eqn:E2; [lia|]. rewrite Hrg. reflexivity.
+    cbn [ser]. destruct (w =? 128) eqn:E.
+    + apply Z.eqb_eq in E. subst w. cbn [de int_of128]. change (128 =? 128) with true. cbv iota. rewrite Hrg. reflexivity.
+    + cbn [de int_of]. rewrite E. destruct (64 <? w) eqn:E2; [lia|]. rewrite Hrg. reflexivity.
   - destruct v; try discriminate Ht. reflexivity.
   - destruct v; try discriminate Ht. reflexivity.
   - destruct v; try discriminate Ht. reflexivity.
@@ -359,8 +361,7 @@ Proof. intros t v. apply (proj1 (roundtrip_all t)). Qed.
 (* the exclusions of [roundtrippable] are needed: what serde cannot carry *)
 Lemma option_option_not_carried :
   de (TOption (TOption (TInt 64))) (ser (SSome SNone)) = Some SNone /\
-  de (TOption TUnit) (ser (SSome SUnit)) = Some SNone /\
-  de (TInt 128) (ser (SInt 128 5)) = None.
+  de (TOption TUnit) (ser (SSome SUnit)) = Some SNone.
 Proof. repeat split; reflexivity. Qed.
 
 (* ================================================================================== *)
